@@ -48,7 +48,7 @@ struct Geo {
             volatile Real half = width[d] * (-Real(1) / Real(2));
             volatile Real cr = center[d] + half;
             corner[d] = cr;
-            volatile Real lw = width[d] * (Real(1) / Real(1 << (H - 1)));
+            volatile Real lw = width[d] * (Real(1) / Real(1L << (H - 1)));
             leafw[d] = lw;
         }
     }
